@@ -49,4 +49,4 @@ Definition tagged : list Z :=
 Example tagged_loads : asf_load tagged = Ok [mkT 0 N_TITLE 0 0 (VText [72; 105])].
 Proof. vm_compute. reflexivity. Qed.
 Example tagged_deleted : exists f', asf_delete tagged = Ok f' /\ asf_load f' = Ok [] /\ asf_delete f' = Ok f' /\ zlen f' = 303.
-Proof. eexists. split; [vm_compute; reflexivity|]. repeat split; vm_compute; reflexivity. Qed.
+Proof. eexists. split; [vm_compute; reflexivity|]. split; [vm_compute; reflexivity|]. split; [vm_compute; reflexivity|vm_compute; reflexivity]. Qed.
